@@ -252,6 +252,12 @@ def _run(tier, seed, cfg, rng, t0, targets, only):  # pylint: disable=too-many-l
             wins = _windows(t["cls"], attrs, k)
         bound = {a for w in wins for a in w}
         n_items0 = len(items)
+        for flag, guarded in W.GUARDED:
+            if flag in attrs and guarded in attrs and not W.coupled(t["cls"], flag, guarded):
+                # a permission flag and the attribute it guards: all orders / all states of the flag (K = 2 cover)
+                gcover, ggraph = (cover, "track") if k == 2 else (cover2, "track2")
+                for q in gcover:
+                    items.append({"target": t, "attrs": [flag, guarded], "path": q, "graph": ggraph, "variant": "guard"})
         for wi, w in enumerate(wins):
             # the class through which the setter of slot 1 is first met replays the whole transition cover; the classes
             # that inherit the same setter replay a sub-family with every kind of step on every slot
